@@ -41,7 +41,28 @@ EXC = {
     'TypeError': lambda: TypeError('vf-type'), 'AttributeError': lambda: AttributeError('vf-attr'),
     'RuntimeError': lambda: RuntimeError('vf-runtime'), 'AssertionError': lambda: AssertionError('vf-assert'),
     'LookupError': lambda: LookupError('vf-lookup'), 'Custom': lambda: Custom('vf-custom'),
+    # TatSu's own exception family, other than parse failures: "any other exception reaches the caller unchanged"
+    'tatsu.ParseError': lambda: _tx('ParseError')('vf-parse-error'), 'tatsu.GrammarError': lambda: _tx('GrammarError')('vf-grammar-error'),
+    'ParseException-subclass': lambda: _tx_sub()('vf-sub'),
 }
+
+
+def _tx(name):
+    import tatsu.exceptions as X
+    return getattr(X, name)
+
+
+_sub = []
+
+
+def _tx_sub():
+    if not _sub:
+        import tatsu.exceptions as X
+
+        class VfParseException(X.ParseException):
+            pass
+        _sub.append(VfParseException)
+    return _sub[0]
 
 
 def canon_key(x):
@@ -290,7 +311,7 @@ def _parse_gen(inst, text, semobj):
     except FailedParse as e:
         return ('fail', type(e).__name__, e.pos)
     except ParseException as e:
-        return ('fail', type(e).__name__, -1)
+        return ('raised', e)     # not a parse failure: an exception of TatSu's family that an action raised (or a defect)
     except RecursionError:
         return ('exc', 'RecursionError', '')
     except Exception as e:
@@ -315,7 +336,7 @@ def _model_parse(model, text, semobj):
     except FailedParse as e:
         return ('fail', type(e).__name__, e.pos)
     except ParseException as e:
-        return ('fail', type(e).__name__, -1)
+        return ('raised', e)     # not a parse failure: an exception of TatSu's family that an action raised (or a defect)
     except RecursionError:
         return ('exc', 'RecursionError', '')
     except Exception as e:
